@@ -37,10 +37,20 @@ RECURSIVE LeadingZeros(_)
 LeadingZeros(ds) == IF ds # <<>> /\ Head(ds) = 0 THEN 1 + LeadingZeros(Tail(ds)) ELSE 0
 Sig(c) == IF c.int = <<0>> THEN SubSeq(c.frac, LeadingZeros(c.frac) + 1, Len(c.frac)) ELSE c.int \o c.frac
 Mag(c) == IF c.int = <<0>> THEN -LeadingZeros(c.frac) ELSE Len(c.int)
-First15(ds) == StripTrailingZeros(SubSeq(ds, 1, IF Len(ds) < 15 THEN Len(ds) ELSE 15))
+\* the value went through an f64 and was printed with 15 significant digits, ROUNDED: its first 15
+\* digits are those of the literal, or those plus one unit in the last place (with carry, possibly
+\* into a new leading digit)
+Pad15(ds) == IF Len(ds) >= 15 THEN SubSeq(ds, 1, 15) ELSE ds \o Zeros(15 - Len(ds))
+RECURSIVE Inc(_)
+Inc(ds) == IF ds = <<>> THEN <<1>>
+           ELSE LET n == Len(ds) IN
+                IF ds[n] < 9 THEN SubSeq(ds, 1, n - 1) \o <<ds[n] + 1>> ELSE Inc(SubSeq(ds, 1, n - 1)) \o <<0>>
+Norm(ds, mag) == IF Len(ds) = 16 THEN [d |-> SubSeq(ds, 1, 15), m |-> mag + 1] ELSE [d |-> ds, m |-> mag]
+Lead(c) == [d |-> Pad15(Sig(c)), m |-> Mag(c)]
 SameFloat(c1, c2) ==
   IF Len(StripTrailingZeros(Sig(c1))) <= 15 /\ Len(StripTrailingZeros(Sig(c2))) <= 15 THEN c1 = c2
-  ELSE Mag(c1) = Mag(c2) /\ First15(Sig(c1)) = First15(Sig(c2))
+  ELSE LET a == Lead(c1)  b == Lead(c2) IN
+       a = b \/ Norm(Inc(a.d), a.m) = b \/ Norm(Inc(b.d), b.m) = a
 
 \* what the emitted SQL token must denote
 ExpectInt(lit) == StripLeadingZeros(lit.ip)
